@@ -84,7 +84,11 @@ func checkParser(c *checkCtx, prop string) {
 			continue
 		}
 		// per-rule result types in C03 always, elsewhere for every second grammar
-		s.goText = genUserGo(d, userOpts{bounds: bounds, typed: prop == "C03" || accepted%2 == 0, shared: prop == "C03" && accepted%2 == 1})
+		shared := prop == "C03" && accepted%2 == 1
+		if strings.Contains(s.loxText, "//verif:shared") && !bounds {
+			shared = true // corpus grammars written for the one-method-per-(rule, arity) layout
+		}
+		s.goText = genUserGo(d, userOpts{bounds: bounds, typed: prop == "C03" || accepted%2 == 0 || shared, shared: shared})
 	}
 	ws.genAll()
 	ws.buildAll()
